@@ -234,7 +234,9 @@ func runC20(c *Check) {
 	}
 	_ = sizeOK
 	// R4: pop before scan; append in blob order (element at the range index)
-	pops := g.Select(func(n *Node) bool { return strings.HasSuffix(CallName(n), "based.PersistentPendingTxs).PopUpToMaxBytes") })
+	pops := g.Select(func(n *Node) bool {
+		return strings.HasSuffix(CallName(n), "based.PersistentPendingTxs).PopUpToMaxBytes")
+	})
 	if len(pops) == 0 {
 		c.Bad("C20-R4", "GetNextBatch ⟂ pop<scan", fn, "", "the carry-over queue is not popped", nil)
 	} else {
@@ -321,7 +323,9 @@ func ruleCarryOverDurable(c *Check, p *Prog) {
 // popped transactions would be discarded and they would never be released).
 func rulePoppedNotDiscarded(c *Check, p *Prog, g *Graph, fnb *ssa.Function) {
 	rule := "C20-R6"
-	pops := g.Select(func(n *Node) bool { return strings.HasSuffix(CallName(n), "based.PersistentPendingTxs).PopUpToMaxBytes") })
+	pops := g.Select(func(n *Node) bool {
+		return strings.HasSuffix(CallName(n), "based.PersistentPendingTxs).PopUpToMaxBytes")
+	})
 	if len(pops) == 0 {
 		c.Unk(rule, "GetNextBatch ⟂ pop", fnName(fnb), "", "anchor lost: the carry-over queue is not popped in GetNextBatch")
 		return
